@@ -1,2 +1,96 @@
-(* Properties/C05.v — property theorems only. (stub) *)
+(* Properties/C05.v — Newick trees survive write -> read, including names that
+   need quoting.  Only statements; every proof is [exact <lemma>].
+
+   Model/Newick.v: [name_to_text]/[name_from_text]/[quoted], the recursive
+   writer [newick_text] and [marshal] (MarshalText; Write emits it as one
+   chunk), the tokeniser [next_token], the five-state machine [read_step]/
+   [read_tree] over an explicit stack of frames, and [decode] (Reader).
+   Distances are canonical float texts; fmt's %v and strconv.ParseFloat enter
+   through the oracle [o]; [float_ok o x] is strconv's contract for one float
+   (H1: the written text parses back to x; H2: it is non-empty and contains no
+   delimiter) and [floats_ok o t] asks it of the non-zero distances of t only.
+   The harness asserts H1/H2 on the real strconv for every float it uses.
+   [norm] maps the zero distances ("0", "-0": not written, "0 is treated as
+   none") to the float64 zero value and changes nothing else. *)
+From Coq Require Import String.
 From Bio Require Import Base.
+From Bio.Model Require Import Newick.
+From Bio.Spec Require Import NewickSpec.
+From Bio.Proofs Require Import NewickProofs NewickProofsB NewickProofsC.
+
+(* nameFromText inverts nameToText for EVERY byte string: spaces, underscores,
+   quotes, parentheses, commas, colons, semicolons, tabs, LF and CR included. *)
+Theorem C05_name_roundtrip : forall s, name_from_text (name_to_text s) = s.
+Proof. exact name_roundtrip. Qed.
+Print Assumptions C05_name_roundtrip.
+
+(* Only the empty name is written as nothing ... *)
+Theorem C05_name_empty_iff : forall s, name_to_text s = [] <-> s = [].
+Proof. exact name_text_nil. Qed.
+Print Assumptions C05_name_empty_iff.
+
+(* ... and every other written name is read as exactly one token, whatever
+   punctuation follows it and however the stream ends afterwards ... *)
+Theorem C05_name_one_token : forall s x r tm,
+  name_to_text s <> [] -> is_punct x = true ->
+  next_token (name_to_text s ++ x :: r) tm = TokOk (name_to_text s) (x :: r).
+Proof. exact name_one_token. Qed.
+Print Assumptions C05_name_one_token.
+
+(* ... or at the end of the input. *)
+Theorem C05_name_one_token_eof : forall s,
+  name_to_text s <> [] -> next_token (name_to_text s) TEOF = TokOk (name_to_text s) [].
+Proof. exact name_one_token_eof. Qed.
+Print Assumptions C05_name_one_token_eof.
+
+(* Write then read: any shape and depth, any names, any distances. *)
+Theorem C05_roundtrip : forall o t, floats_ok o t ->
+  decode o (marshal o t) TEOF = Ok [Rec (norm t)].
+Proof. exact decode_marshal. Qed.
+Print Assumptions C05_roundtrip.
+
+(* [norm] is the identity unless some distance is the negative zero. *)
+Theorem C05_norm_id : forall t, Forall (fun d => d <> [45; 48]) (dists t) -> norm t = t.
+Proof. exact norm_id. Qed.
+Print Assumptions C05_norm_id.
+
+(* Several trees one after another, with any whitespace (or none) before,
+   between and after them, are read back as the same sequence. *)
+Theorem C05_roundtrip_seq : forall o ws0 l,
+  ws_string ws0 -> Forall (fun p => floats_ok o (fst p) /\ ws_string (snd p)) l ->
+  decode o (ws0 ++ seq_text o l) TEOF = Ok (map (fun p => Rec (norm (fst p))) l).
+Proof. exact decode_seq. Qed.
+Print Assumptions C05_roundtrip_seq.
+
+(* The written form has no whitespace outside quoted names and ends with ';'. *)
+Theorem C05_condensed : forall o t, floats_ok o t ->
+  condensed (marshal o t) /\ last (marshal o t) 0 = 59.
+Proof. exact marshal_condensed. Qed.
+Print Assumptions C05_condensed.
+
+(* The reader is total: neither panic("unexpected state") nor running out of
+   fuel happens, for every input, every terminal condition and every oracle. *)
+Theorem C05_no_panic : forall o s tm, decode o s tm <> Panic.
+Proof. exact decode_no_panic. Qed.
+Print Assumptions C05_no_panic.
+
+(* Non-vacuity: a tree with names that need quoting (a quote, a line break, a
+   space, the empty name), an exponent-format distance and a negative zero. *)
+Definition C05_o : foracle :=
+  {| f_parse := [(bs "1.5", bs "1.5"); (bs "1e-07", bs "1e-07")];
+     f_fmt := [(bs "1.5", bs "1.5"); (bs "1e-07", bs "1e-07")] |}.
+Definition C05_t : tree :=
+  Node (bs "it's") (bs "1.5")
+    [Node (bs "a b") (bs "0") []; Node [120; 10; 121] (bs "1e-07") []; Node [] (bs "-0") []].
+Example C05_example :
+  floats_ok C05_o C05_t
+  /\ marshal C05_o C05_t = bs "(a_b,'x" ++ [10] ++ bs "y':1e-07,)'it''s':1.5;"
+  /\ decode C05_o (marshal C05_o C05_t ++ [13; 10; 9] ++ marshal C05_o C05_t) TEOF
+     = Ok [Rec (norm C05_t); Rec (norm C05_t)]
+  /\ norm C05_t <> C05_t
+  /\ decode C05_o (bs "a" ++ [10] ++ bs "b;") TEOF = Ok [ErrItem].
+Proof.
+  split; [|vm_compute; repeat split; discriminate].
+  unfold floats_ok. vm_compute dists.
+  repeat constructor; intros; try discriminate; vm_compute; repeat constructor; discriminate.
+Qed.
